@@ -54,10 +54,15 @@ pub fn spec_is_patch(name: &[u8]) -> bool {
     starts(b"patch-") || (starts(b"emul-") && contains_from(5, b"-patch-"))
 }
 
-fn any_name(tag: &str, patch: bool, sub: bool) -> Vec<u8> {
+/// `sub`: 0 = no DIST_SUBDIR; 1 = `sub/`; 2, 3 = redundant spellings of the same directory (`sub//`, `./sub/`),
+/// which a byte-exact round trip must keep as written (seed z10 normalised them through `Path::components`)
+fn any_name(tag: &str, patch: bool, sub: usize) -> Vec<u8> {
     let mut n: Vec<u8> = Vec::new();
-    if sub {
-        n.extend_from_slice(b"sub/");
+    match sub {
+        0 => {}
+        1 => n.extend_from_slice(b"sub/"),
+        2 => n.extend_from_slice(b"sub//"),
+        _ => n.extend_from_slice(b"./sub/"),
     }
     if patch {
         n.extend_from_slice(b"patch-");
@@ -140,7 +145,7 @@ fn gen_files() -> Vec<FileSpec> {
     while i < nd {
         // the first distfile varies in every dimension, further ones only in their name
         let first = i == 0;
-        let mut name = any_name("dn", false, first && dim("sub", 2, a0 / 3) == 1);
+        let mut name = any_name("dn", false, if first && dim("sub", 2, a0 / 3) == 1 { a0 - 2 } else { 0 });
         name.push(b'0' + i as u8); // distinct names
         let a = if first { a0 } else { 3 };
         let mut sums = vec![(a, if first { sym::any_bytes("h", "hex:30-39,61-66", 1, 1) } else { b"00".to_vec() })];
@@ -154,7 +159,7 @@ fn gen_files() -> Vec<FileSpec> {
     // zero, one or two patches; two patches get distinct one-byte suffixes in either order
     let np = sym::choose("patch", 3);
     if np >= 1 {
-        let name = any_name("pn", true, false);
+        let name = any_name("pn", true, 0);
         files.push(FileSpec { name, sums: vec![(dim("palg", 2, a0 / 2) * 5, b"0f".to_vec())], size: None, patch: true });
     }
     if np == 2 {
@@ -260,7 +265,7 @@ pub fn h_classify() {
 /// interleaved recognised and ignored lines
 pub fn h_lines() {
     // one name with arbitrary bytes, a fixed patch name and a fixed DIST_SUBDIR name
-    let names: [Vec<u8>; 3] = [any_name("n0", false, false), b"patch-ab".to_vec(), b"sub/d2".to_vec()];
+    let names: [Vec<u8>; 3] = [any_name("n0", false, 0), b"patch-ab".to_vec(), b"sub/d2".to_vec()];
     // expected, per name: checksums in line order and last size
     let mut order: Vec<usize> = Vec::new();
     let mut sums: Vec<Vec<(usize, Vec<u8>)>> = vec![Vec::new(), Vec::new(), Vec::new()];
